@@ -73,6 +73,23 @@ def Below (P : Prog) (A : Array Anns) (s0 : Nat) (sel : Option SelectState) : Li
             st.receiving.isSome = true)) ∧
       Below P A s0 sel rest sb g.localsBase
 
+/-- Operands a suspended frame has handed over: a `Call` replaced 2 cells (function, argument) by
+the callee's argument; the active `Select` replaced its 1 cell (sources) by the filter's argument. -/
+def handedOver (i : Instr) : Nat := if i = .select then 1 else 2
+
+/-- Stack base (number of cells below the argument) of the frame running on top of the suspended
+frames `rest`, computed from the frames and the annotations alone (`s0` cells lie below the bottom
+frame's argument). `Below … rest sb _` forces `sb = stackBaseOf … rest` (C16 `below_base_eq`). -/
+def stackBaseOf (P : Prog) (A : Array Anns) (s0 : Nat) : List Frame → Nat
+  | [] => s0
+  | g :: rest =>
+    match P.functions[g.functionIndex]?, (annsOf A g.functionIndex)[g.counter]? with
+    | some fn, some (some a) =>
+      match fn.instructions[g.counter]? with
+      | some i => stackBaseOf P A s0 rest + a.height - handedOver i
+      | none => 0
+    | _, _ => 0
+
 /-- Shape of the current frame `f` (frame index `k`, stack base `sb`) of a process whose stack has
 `sLen` cells, whose locals number `lLen`, with parking state `park` and select state `sel`. -/
 inductive TopShape (P : Prog) (A : Array Anns) (f : Frame) (k sb sLen lLen : Nat) (park : Park)
